@@ -6,7 +6,8 @@ import ast
 
 from ..cfg import cfg_of
 from ..model import AnalysisError, call_name, calls_in, dotted, norm, walk_no_nested
-from .. import callgraph, rules
+from .. import callgraph, inline, rules
+from .. import conds as cnd
 from ._dispatch import check_dispatcher
 
 META = {
@@ -322,7 +323,7 @@ def check_on_disconnected(ctx):
         f = repo.method(cname, "_on_disconnected", inherited=False)
         ctx.touch(f)
         q = f.qualname
-        cfg = cfg_of(f.node)
+        cfg = cfg_of(inline.expanded(ctx, f))
         wanted = [("thread stop", lambda n: any(c == "self._thread.stop" for c in n.call_names())),
                   ("receive buffer clear", lambda n: any(c == "self._receive_buffer.clear" for c in n.call_names()))]
         if extra:
